@@ -38,9 +38,9 @@ class C04(ParseProp):
     rule = ('exhaustive small texts and seeded random texts (<= 24 chars) over an alphabet with filtered-able whitespace, '
             'brackets, multi-byte/wide chars and a scanner-rejected char; plain, counting and modal scanners; 9 filter '
             'predicates; LF/CR/CRLF and several tab widths; the lexer is advanced with next() to exhaustion (+2 extra calls) '
-            'observing token, token_span, parse_span each time, and drained with iter_with_spans (clipped text ranges); plus histories that install another filter mid-stream after deliveries and a look-ahead, then drain, and histories that start a new parse with start_sublex / into_sublexer with and without a look-ahead buffered; '
+            'observing token, token_span, parse_span each time, with the metrics configured before and after the filter, and drained with iter_with_spans (clipped text ranges); plus histories that install another filter mid-stream after deliveries and a look-ahead, then drain, and histories that start a new parse with start_sublex / into_sublexer with and without a look-ahead buffered; '
             'non-trivial = >= 3 tokens and (a filter that removes something or a rejected char); distinct by case')
-    assumptions = ['scanners are the three harness scanners; metrics configured before the filter (builder order is C03)']
+    assumptions = ['scanners are the three harness scanners (every token consumes at least one character)']
 
     def cases(self, tier, rng):
         out = []
@@ -62,6 +62,17 @@ class C04(ParseProp):
             t = spangen.random_text(r, ALPHA, 24)
             add(r.choice(['plain', 'counting', 'counting', 'modal']), r.choice(['lf', 'cr', 'crlf']), 1 + r.below(9),
                 r.choice(FILTERS), t)
+        # metrics configurations installed AFTER the filter (the eager filter scan has already buffered the first token under
+        # the default metrics): texts whose first delivered token depends on the metrics (tab, CR / LF line breaks)
+        for i in range(300 if tier == 'quick' else 3000):
+            head = r.choice([['TAB'], ['TAB', 'sp'], ['CR'], ['LF', 'TAB'], ['sp', 'TAB'], ['a', 'TAB']])
+            t = head + spangen.random_text(r, ['a', 'b', 'sp', 'comma', 'TAB', 'LF', 'CR'], 10)
+            flt = r.choice(['none', ['drop', 'Comma'], ['keep', 'Ws', 'A'], ['drop', 'Ws'], ['drop', 'A']])
+            le = r.choice(['lf', 'cr', 'crlf']); tab = r.choice([1, 2, 3, 5, 8])
+            second = r.choice([[['metrics', le, tab]], [['tab', tab]], [['le', le]], [['le', le], ['tab', tab]]])
+            ntok = len(parsegen.tokens_of(t)) + 2
+            n += 1
+            out.append(parsegen.lex_case('c%d' % n, r.choice(['plain', 'counting']), t, [['filter', flt]] + second, ['next'] * ntok))
         # a filter installed mid-stream, after deliveries and a look-ahead: from then on the deliveries are the rest of the
         # unfiltered sequence minus what the NEW filter rejects (at least one token has been delivered since the start, so
         # the lexer is not at a parse start: the recorded C05 finding about eager skips is out of play)
